@@ -1,6 +1,7 @@
 import Replicon.Proofs.Client
 import Replicon.Proofs.Fresh
 import Replicon.Proofs.Session
+import Replicon.Proofs.ClientKinds
 /-
 C01 — Every client converges to the server state under any legal network schedule.
 
@@ -188,5 +189,22 @@ theorem C01_history_same_entities_any_schedule (s0 : Server) (hw : s0.world = []
           marked (Joint.run { srv := s0 } (ops ++ [.frame ticked ms parts])).1.srv.world se ∧
           Vis.isVisible (Joint.run { srv := s0 } (ops ++ [.frame ticked ms parts])).1.srv.white (cell x.2 se) = true :=
   Joint.session_view_any_schedule s0 hw hc0 hb ops ticked ms parts hl hr hc
+
+/-- **… each with the same replicated components, over ALL histories, across both models**
+(`Joint.session_components`; the statement of `C03_history_structure`): for every entity the
+client holds, the client model fed the session's update messages in order has exactly the
+replicated component kinds the server entity carries.  (Component *values* are C02's subject and
+are checked on the implementation; see `C01_converges_partial`.) -/
+theorem C01_history_same_components (s0 : Server) (hw : s0.world = []) (hc0 : s0.clients = []) (hb : s0.removalBuf = [])
+    (ht : s0.lastRun < s0.now)
+    (ops : List Joint.Op) (ticked : Bool) (ms : Nat) (parts : Nat → List (List Nat))
+    (hl : Joint.Legal2 { srv := s0 } (ops ++ [.frame ticked ms parts]))
+    (hr : (Joint.run { srv := s0 } ops).1.srv.running = true)
+    (hc : (preRun (Joint.run { srv := s0 } ops).1.srv ticked ms).tickChanged = true) :
+    ∀ x ∈ (Joint.run { srv := s0 } (ops ++ [.frame ticked ms parts])).1.srv.clients, x.2.authorized = true →
+      ∀ e, e ∈ keys x.2 → ∀ ent, (e, ent) ∈ (Joint.run { srv := s0 } (ops ++ [.frame ticked ms parts])).1.srv.world →
+        ∀ k, k ∈ kindsOn (Joint.replay ((Joint.runLog { srv := s0 } (fun _ => []) (ops ++ [.frame ticked ms parts])).2 x.1)) e ↔
+          k ∈ presentKinds (Joint.run { srv := s0 } (ops ++ [.frame ticked ms parts])).1.srv ent :=
+  Joint.session_components s0 hw hc0 hb ht ops ticked ms parts hl hr hc
 
 end Replicon.C01
